@@ -71,16 +71,15 @@ Definition conn_tokens (c : bytes) : list bytes :=
   filter (fun f => negb (is_nil f)) (map trim_space (split COMMA c)).
 
 (* ---- createUpstreamRequest (header part) ---- *)
-(* only the FIRST Connection value is consulted (Header.Get) *)
-Definition strip_conn_listed (h : hdr) : hdr :=
-  fold_left hdel (conn_tokens (hget h K_CONNECTION)) h.
-(* a hop-by-hop header is deleted only when its first value is non-empty (Header.Get != "") *)
-Definition strip_hop_req (h : hdr) : hdr :=
-  fold_left (fun h k => if is_nil (hget h k) then h else hdel h k) gen_hop_headers h.
-(* was the header map copied (true) or does outreq.Header alias r.Header (false)? *)
-Definition req_copied (h : hdr) : bool :=
-  negb (is_nil (conn_tokens (hget h K_CONNECTION))) ||
-  existsb (fun k => negb (is_nil (hget (strip_conn_listed h) k))) gen_hop_headers.
+(* every Connection value is consulted (range over Header["Connection"]; the slice is evaluated
+   once, so deleting "Connection" itself on the way does not cut the iteration short) *)
+Definition conn_values (h : hdr) : list bytes :=
+  match hlookup h K_CONNECTION with Some vs => vs | None => [] end.
+Definition listed_conn_tokens (h : hdr) : list bytes := flat_map conn_tokens (conn_values h).
+Definition strip_conn_listed (h : hdr) : hdr := fold_left hdel (listed_conn_tokens h) h.
+(* every hop-by-hop header is deleted (Header.Del), whatever its values. outreq.Header is always a
+   copy of r.Header: nothing below ever writes to the client's own header map *)
+Definition strip_hop_req (h : hdr) : hdr := fold_left hdel gen_hop_headers h.
 Definition COMMA_SP : bytes := [44; 32].
 Definition add_xff (remote : bytes) (h : hdr) : hdr :=
   match split_host_port remote with
@@ -143,25 +142,24 @@ Definition subst_of (e : reqenv) (live : hdr) (p : bytes) : bytes :=
 Definition rule := (bytes * list bytes)%type.
 Definition PLUS : N := 43.
 Definition MINUS : N := 45.
-(* [fixed] = Some h0: placeholders read the untouched client header map (outreq.Header was
-   copied, or response direction); None: they read the map being mutated (aliasing) *)
-Definition live_of (fixed : option hdr) (h : hdr) : hdr := match fixed with Some h0 => h0 | None => h end.
-Definition apply_rule (e : reqenv) (fixed : option hdr) (h : hdr) (r : rule) : hdr :=
+(* [h0]: r.Header, the client's own header map, which the {>Header} placeholders read; the rules
+   rewrite [h], a different map (outreq.Header is a copy; resp.Header in the response direction) *)
+Definition apply_rule (e : reqenv) (h0 : hdr) (h : hdr) (r : rule) : hdr :=
   let '(f, vals) := r in
   match f with
   | c :: name =>
       if c =? PLUS then
-        fold_left (fun h v => let x := replace_ph (subst_of e (live_of fixed h)) v in
+        fold_left (fun h v => let x := replace_ph (subst_of e h0) v in
                               if is_nil x then h else hadd h name x) vals h
       else if c =? MINUS then hdel h name
       else match rev vals with
            | [] => h
-           | v :: _ => let x := replace_ph (subst_of e (live_of fixed h)) v in
+           | v :: _ => let x := replace_ph (subst_of e h0) v in
                        if is_nil x then h else hset h f x
            end
   | [] => match rev vals with
           | [] => h
-          | v :: _ => let x := replace_ph (subst_of e (live_of fixed h)) v in
+          | v :: _ => let x := replace_ph (subst_of e h0) v in
                       if is_nil x then h else hset h f x
           end
   end.
@@ -181,15 +179,15 @@ Definition replace_all (pat to s : bytes) : bytes :=
   match pat with [] => s | _ => replace_all_go (S (length s)) pat to s end.
 
 Definition rerule := (bytes * list (bytes * bytes))%type.
-Definition apply_rerule (e : reqenv) (fixed : option hdr) (h : hdr) (r : rerule) : hdr :=
+Definition apply_rerule (e : reqenv) (h0 : hdr) (h : hdr) (r : rerule) : hdr :=
   fold_left (fun h pt =>
-               let x := replace_ph (subst_of e (live_of fixed h)) (snd pt) in
+               let x := replace_ph (subst_of e h0) (snd pt) in
                let orig := hget h (fst r) in
                if negb (is_nil x) && negb (is_nil orig) then hset h (fst r) (replace_all (fst pt) x orig) else h)
             (snd r) h.
 
-Definition mutate_headers (e : reqenv) (fixed : option hdr) (rules : list rule) (res : list rerule) (h : hdr) : hdr :=
-  fold_left (apply_rerule e fixed) res (fold_left (apply_rule e fixed) rules h).
+Definition mutate_headers (e : reqenv) (h0 : hdr) (rules : list rule) (res : list rerule) (h : hdr) : hdr :=
+  fold_left (apply_rerule e h0) res (fold_left (apply_rule e h0) rules h).
 
 (* ---- upstream.go parseBlock: the directives that shape relaying ---- *)
 Inductive directive :=
@@ -246,17 +244,19 @@ Definition director (t : target) (without : bytes) (u : urlst) : urlst :=
            else t_query t ++ [AMP] ++ u_query u in
   {| u_path := sjs (t_path t) p; u_rawpath := rp'; u_query := q |}.
 
-(* ---- one attempt of the retry loop (the request is shared and mutated across attempts) ---- *)
+(* ---- one attempt of the retry loop ----
+   [h0]: what the {>Header} placeholders read (the client's header map). When retries are possible
+   (try_duration != 0, [retriable]) every attempt starts from a fresh copy of the URL and the
+   headers createUpstreamRequest produced; otherwise the (single) attempt works on the request itself. *)
 Record rstate := { s_url : urlst; s_hdr : hdr }.
 Record sent := { o_host : bytes; o_urlhost : bytes; o_url : urlst; o_hdr : hdr }.
 Definition last_or {A} (l : list A) (d : A) : A := match rev l with x :: _ => x | [] => d end.
-Definition attempt (c : pcfg) (e : reqenv) (h0 : hdr) (copied : bool) (st : rstate) (t : target) : rstate * sent :=
+Definition attempt (c : pcfg) (e : reqenv) (h0 : hdr) (st : rstate) (t : target) : rstate * sent :=
   let h1 := match t_auth t with
             | Some a => if is_nil (hget (s_hdr st) K_AUTHZ) then hset (s_hdr st) K_AUTHZ a else s_hdr st
             | None => s_hdr st
             end in
-  (* with aliasing the basic-auth Set also lands in r.Header; placeholders read the live map *)
-  let h2 := mutate_headers e (if copied then Some h0 else None) (c_up c) (c_upre c) h1 in
+  let h2 := mutate_headers e h0 (c_up c) (c_upre c) h1 in
   let host := match hlookup h2 K_HOST with
               | Some vs => if is_nil vs then t_host t else last_or vs []
               | None => t_host t
@@ -264,22 +264,24 @@ Definition attempt (c : pcfg) (e : reqenv) (h0 : hdr) (copied : bool) (st : rsta
   let u := director t (c_without c) (s_url st) in
   ({| s_url := u; s_hdr := h2 |}, {| o_host := host; o_urlhost := t_host t; o_url := u; o_hdr := h2 |}).
 
-Fixpoint attempts (c : pcfg) (e : reqenv) (h0 : hdr) (copied : bool) (st : rstate) (ts : list target) : list sent * rstate :=
+Fixpoint attempts (c : pcfg) (e : reqenv) (h0 : hdr) (retriable : bool) (st0 st : rstate) (ts : list target) : list sent * rstate :=
   match ts with
   | [] => ([], st)
-  | t :: r => let '(st', o) := attempt c e h0 copied st t in
-              let '(os, stf) := attempts c e h0 copied st' r in (o :: os, stf)
+  | t :: r => let '(st', o) := attempt c e h0 (if retriable then st0 else st) t in
+              let '(os, stf) := attempts c e h0 retriable st0 st' r in (o :: os, stf)
   end.
 
 Record request := { q_method : bytes; q_host : bytes; q_remote : bytes; q_url : urlst; q_hdr : hdr }.
 Definition env_of (q : request) : reqenv := {| e_method := q_method q; e_host := q_host q; e_remote := q_remote q |}.
-Definition run_request (c : pcfg) (q : request) (ts : list target) : list sent * rstate :=
-  attempts c (env_of q) (q_hdr q) (req_copied (q_hdr q))
-           {| s_url := q_url q; s_hdr := create_upstream_headers (q_remote q) (q_hdr q) |} ts.
+Definition init_state (q : request) : rstate :=
+  {| s_url := q_url q; s_hdr := create_upstream_headers (q_remote q) (q_hdr q) |}.
+Definition run_request (c : pcfg) (retriable : bool) (q : request) (ts : list target) : list sent * rstate :=
+  attempts c (env_of q) (q_hdr q) retriable (init_state q) (init_state q) ts.
 
 (* ---- response half of ReverseProxy.ServeHTTP ---- *)
+(* every Connection value of the backend response is consulted (range over res.Header["Connection"]) *)
 Definition resp_strip (h : hdr) : hdr :=
-  fold_left hdel gen_hop_headers (fold_left hdel (conn_tokens (hget h K_CONNECTION)) h).
+  fold_left hdel gen_hop_headers (fold_left hdel (listed_conn_tokens h) h).
 Definition copy_header_step (dst : hdr) (kv : bytes * list bytes) : hdr :=
   let '(k, vv) := kv in
   match hlookup dst k with
@@ -291,7 +293,9 @@ Definition copy_header_step (dst : hdr) (kv : bytes * list bytes) : hdr :=
 Definition copy_header (dst src : hdr) : hdr := fold_left copy_header_step src dst.
 
 Record bresp := { b_status : N; b_hdr : hdr; b_announced : list bytes; b_trailers : hdr }.
-(* final res.Trailer: announced keys (nil when never sent) overlaid with what arrived *)
+(* final res.Trailer: announced keys (nil when never sent) overlaid with what arrived; all of it
+   reaches the client: announced trailers through the Trailer header + early flush, unannounced
+   ones through http.TrailerPrefix after a flush that keeps a short body from getting a Content-Length *)
 Definition final_trailers (b : bresp) : hdr :=
   fold_left (fun t kv => hput t (fst kv) (snd kv)) (b_trailers b) (map (fun k => (k, [])) (b_announced b)).
 Definition nodup_keys (l : list bytes) : list bytes :=
@@ -299,7 +303,7 @@ Definition nodup_keys (l : list bytes) : list bytes :=
 Record cview := { v_status : N; v_hdr : hdr; v_trailers : hdr }.
 (* [live] = r.Header when the downstream rules run (placeholders of header_downstream) *)
 Definition client_view (c : pcfg) (e : reqenv) (live : hdr) (pre : hdr) (b : bresp) : cview :=
-  let h1 := mutate_headers e (Some live) (c_down c) (c_downre c) (resp_strip (b_hdr b)) in
+  let h1 := mutate_headers e live (c_down c) (c_downre c) (resp_strip (b_hdr b)) in
   let h2 := copy_header pre h1 in
   let ann := nodup_keys (b_announced b) in
   let h3 := if is_nil ann then h2 else hput h2 K_TRAILER ann in
@@ -515,8 +519,8 @@ Definition dflt_sent : sent := {| o_host := []; o_urlhost := []; o_url := dflt_u
 Definition sent_eqb (a b : sent) : bool :=
   beq (o_host a) (o_host b) && beq (o_urlhost a) (o_urlhost b) && urlst_eqb (o_url a) (o_url b) &&
   hdr_eqb (o_hdr a) (o_hdr b).
-Definition agree_sent_pointwise (cfg : pcfg) (q : request) (chosen : list target) (obs : list sent) : list (nat * bytes) :=
-  let m0s := fst (run_request cfg q chosen) in
+Definition agree_sent_pointwise (cfg : pcfg) (retriable : bool) (q : request) (chosen : list target) (obs : list sent) : list (nat * bytes) :=
+  let m0s := fst (run_request cfg retriable q chosen) in
   flat_map (fun i =>
     let o := nth i obs dflt_sent in
     let m0 := nth i m0s dflt_sent in
@@ -528,26 +532,11 @@ Definition agree_sent_pointwise (cfg : pcfg) (q : request) (chosen : list target
                  negb ((oval_eqb (hlookup (o_hdr m0) k) (hlookup (o_hdr o) k) &&
                         (negb (beq k K_HOST) || beq (o_host m0) (o_host o))) ||
                        existsb (fun rules =>
-                                  let m := nth i (fst (run_request (with_up cfg rules) q chosen)) dflt_sent in
+                                  let m := nth i (fst (run_request (with_up cfg rules) retriable q chosen)) dflt_sent in
                                   oval_eqb (hlookup (o_hdr m) k) (hlookup (o_hdr o) k) &&
                                   (negb (beq k K_HOST) || beq (o_host m) (o_host o)))
                                (tl (reorder_for k (c_up cfg))))) keys))
     (seq 0 (length obs)).
-
-(* when outreq.Header aliases r.Header, {>H} placeholders see what earlier rules wrote, so even rules
-   for different headers do not commute: fall back to "some iteration order of the whole table"
-   (tables of up to 5 fields; larger aliased tables are judged by the spec only) *)
-Definition agree_sent_fail (cfg : pcfg) (q : request) (chosen : list target) (obs : list sent) : list (nat * bytes) :=
-  match agree_sent_pointwise cfg q chosen obs with
-  | [] => []
-  | f => if req_copied (q_hdr q) then f
-         else if Nat.ltb 5 (length (c_up cfg)) then []
-         else if existsb (fun rules => list_beq sent_eqb (fst (run_request (with_up cfg rules) q chosen)) obs) (perms (c_up cfg))
-              then [] else f
-  end.
-
-Definition live_at_response (cfg : pcfg) (q : request) (chosen : list target) : hdr :=
-  if req_copied (q_hdr q) then q_hdr q else s_hdr (snd (run_request cfg q chosen)).
 
 Definition agree_client_fail (cfg : pcfg) (q : request) (live : hdr) (pre : hdr) (b : bresp) (oc : client_obs) : list bytes :=
   let m0 := client_view cfg (env_of q) live pre b in
@@ -599,8 +588,8 @@ Definition judge (c : case) : N :=
       let nobs := length obs_sent in
       let answered := Nat.ltb fails nobs in
       let agree :=
-        is_nil (agree_sent_fail cfg q chosen (map so_sent obs_sent)) &&
-        (if answered then is_nil (agree_client_fail cfg q (live_at_response cfg q chosen) pre b oc) else (ret =? 502)) in
+        is_nil (agree_sent_pointwise cfg retry q chosen (map so_sent obs_sent)) &&
+        (if answered then is_nil (agree_client_fail cfg q (q_hdr q) pre b oc) else (ret =? 502)) in
       let spec :=
         Nat.eqb nobs (if retry then S fails else 1%nat) &&
         forallb (fun so => is_nil (spec_attempt_fail ds ts q body chunked so)) obs_sent &&
